@@ -220,7 +220,9 @@ func (f *csFake) serve() {
 				f.end.Write([]byte(csReplyText(c)))
 			}
 		default:
-			if d.C == "-" || d.C == "" {
+			if d.C == "stall" {
+				// no reply: the client's CommandTimeout has to end the call
+			} else if d.C == "-" || d.C == "" {
 				unexpected()
 				f.end.Write([]byte("250 2.0.0 fine\r\n"))
 			} else {
@@ -283,6 +285,11 @@ func csAddr(name string) string { return name + "@x.test" }
 // call returned at all.
 func (c *csConn) call(l *csLabel) (string, bool) {
 	res := make(chan string, 1)
+	if l.Dec.C == "stall" && l.Call != "WClose" {
+		c.cl.CommandTimeout = 600 * time.Millisecond
+	} else {
+		c.cl.CommandTimeout = 5 * time.Second
+	}
 	go func() {
 		switch l.Call {
 		case "Noop":
@@ -831,6 +838,12 @@ func csWalk(lmtp bool, rng *rand.Rand, steps int, script []*csLabel, sub time.Du
 				l.Dec.C = pick("250", "250", "250", "502")
 			case "Quit":
 				l.Dec.C = pick("221", "221", "502")
+			}
+			switch l.Call {
+			case "Noop", "Verify", "Reset", "Quit":
+				if len(l.Args) == 0 && rng.Intn(15) == 0 {
+					l.Dec.C = "stall"
+				}
 			case "Mail":
 				l.Dec.C = pick("250", "250", "250", "451", "550")
 			case "Rcpt":
@@ -934,6 +947,12 @@ func csWalk(lmtp bool, rng *rand.Rand, steps int, script []*csLabel, sub time.Du
 					closed = true
 				}
 			}
+			switch t[0] {
+			case "NOOP", "VRFY", "RSET", "QUIT":
+				if l.Dec.C == "stall" {
+					stuck = true
+				}
+			}
 		}
 		if l.Call == "Close" {
 			closed = true
@@ -987,6 +1006,9 @@ func clientSessionEngine(run *evid.Run, tier string) map[string]interface{} {
 				rot := func(k int64) bool { return (int64(n)+seed)%k == 0 }
 				if len(e.Lbl.V) == 1 && e.Lbl.V[0] == "stall" {
 					return rot(3) // a third of the time-out edges in the quick tier
+				}
+				if e.Lbl.Dec.C == "stall" {
+					return rot(12) // commands that are never answered (CommandTimeout)
 				}
 				// quick tier: the calls that carry this property's clauses are toured
 				// completely, the others are sampled (and still executed on the way)
